@@ -24,7 +24,7 @@ import (
 // C17: first-use / record histories on the real Prometheus reporter - directly and underneath real
 // tally scopes - with a fresh prometheus Registry per case; the registry is gathered after a report pass.
 
-var c17Names = []string{"alpha", "beta_total"}
+var c17Names = []string{"alpha", "beta_total", "alpha_k"}
 var c17Vals = []string{"v1", "v2"}
 
 // concretisation of bound token 2i (i = 1..4): value buckets and duration buckets
@@ -51,6 +51,13 @@ type c17Case struct {
 }
 
 var c17PathSeq int
+
+// families to declare through Register* at the start of the next case
+var c17Prereg []struct {
+	as   string
+	name string
+	tm   map[string]string
+}
 
 // newC17Case builds the reporter with one of the callback flavours
 func newC17Case(cbKind string, flavour string) *c17Case {
@@ -248,6 +255,23 @@ func init() {
 				c.root, c.closer = tally.VerifNewRootScope(tally.ScopeOptions{CachedReporter: c.rep, Separator: tprom.DefaultSeparator,
 					SanitizeOptions: &tprom.DefaultSanitizerOpts, OmitCardinalityMetrics: rng.Intn(2) == 0}, 0, 1)
 			}
+			for _, pr := range c17Prereg {
+				keys := []string{"z", "a"}
+				var err error
+				switch pr.as {
+				case "counter":
+					_, err = c.rep.RegisterCounter(pr.name, keys, pr.name+" counter")
+				case "gauge":
+					_, err = c.rep.RegisterGauge(pr.name, keys, pr.name+" gauge")
+				case "timer":
+					_, err = c.rep.RegisterTimer(pr.name, keys, pr.name+" "+flavour, nil)
+				}
+				res := "ok"
+				if err != nil {
+					res = "err"
+				}
+				tr.Emit(M{"e": "register", "as": pr.as, "name": pr.name, "keys": keys, "res": res})
+			}
 			// sample token -> concrete value for histogram `nm`
 			sampleVal := func(tok int) (float64, time.Duration) {
 				K := 4
@@ -441,14 +465,14 @@ func init() {
 			L = 4
 		}
 		var allocAlpha []allocOp
-		for _, nm := range c17Names {
+		for _, nm := range c17Names[:2] {
 			for _, k := range kinds {
 				for _, tm := range tagmaps[:2] {
 					allocAlpha = append(allocAlpha, allocOp{k, nm, tm})
 				}
 			}
 		}
-		spec2 := map[string][]int{"alpha": {2, 6}, "beta_total": {4}}
+		spec2 := map[string][]int{"alpha": {2, 6}, "beta_total": {4}, "alpha_k": {2, 6}}
 		var seqs [][]allocOp
 		var rec func(prefix []allocOp)
 		rec = func(prefix []allocOp) {
@@ -481,6 +505,19 @@ func init() {
 				}
 			}
 		}
+		// (A') ids that collide when name and keys are flattened carelessly (alpha+[k] vs alpha_k+[]), same kind:
+		//      two legitimate, distinct families
+		for ci, cbKind := range []string{"custom", "cfg-none", "default"} {
+			for _, k := range kinds {
+				for _, order := range [][2]allocOp{{{k, "alpha", tagmaps[1]}, {k, "alpha_k", tagmaps[0]}}, {{k, "alpha_k", tagmaps[0]}, {k, "alpha", tagmaps[2]}}} {
+					via := "reporter"
+					if ci == 1 {
+						via = "scope"
+					}
+					runCase(cbKind, "histogram", via, []allocOp{order[0], order[1], order[0]}, 2, spec2, false, ci)
+				}
+			}
+		}
 		// (B) values: random record histories, names not reused across kinds, several tag values, all bucket specs
 		nv := 400
 		if thorough {
@@ -488,7 +525,8 @@ func init() {
 		}
 		for i := 0; i < nv; i++ {
 			// name -> kind assignment without reuse
-			kindOf := map[string]string{c17Names[0]: kinds[rng.Intn(4)], c17Names[1]: kinds[rng.Intn(4)]}
+			kindOf := map[string]string{c17Names[0]: kinds[rng.Intn(4)], c17Names[1]: kinds[rng.Intn(4)], c17Names[2]: kinds[rng.Intn(4)]}
+			prereg := i%3 == 1 // families declared up front through Register*, label keys in the caller's own (non-alphabetical) order
 			specTok := map[string][]int{}
 			for _, nm := range c17Names {
 				var toks []int
@@ -506,10 +544,13 @@ func init() {
 			no := 1 + rng.Intn(5)
 			withTags := rng.Intn(2) == 0
 			for k := 0; k < no; k++ {
-				nm := c17Names[rng.Intn(2)]
+				nm := c17Names[rng.Intn(3)]
 				tm := map[string]string{}
 				if withTags {
 					tm = map[string]string{"k": c17Vals[rng.Intn(2)]}
+				}
+				if prereg {
+					tm = map[string]string{"a": c17Vals[rng.Intn(2)], "z": c17Vals[rng.Intn(2)]}
 				}
 				ops = append(ops, allocOp{kindOf[nm], nm, tm})
 			}
@@ -521,7 +562,16 @@ func init() {
 			if rng.Intn(2) == 0 {
 				fl = "histogram"
 			}
+			c17Prereg = nil
+			if prereg {
+				for _, nm := range c17Names {
+					if kindOf[nm] != "histogram" {
+						c17Prereg = append(c17Prereg, allocOp{kindOf[nm], nm, nil})
+					}
+				}
+			}
 			runCase("custom", fl, via, ops, 1+rng.Intn(6), specTok, rng.Intn(2) == 0, rng.Intn(6))
+			c17Prereg = nil
 		}
 		// (C) concurrent first use of one family (same name and tag keys, different tag values) from several goroutines:
 		//     get-or-register must be atomic - nobody's registration is rejected, every series is there
@@ -533,7 +583,7 @@ func init() {
 			const G = 4
 			c := newC17Case("custom", "summary")
 			kind := kinds[i%4]
-			tr.Emit(M{"e": "new", "flavour": "summary", "cb": "custom", "cbPanics": false, "cbObs": false, "via": "reporter-concurrent", "specs": M{"alpha": []int{2, 6}, "beta_total": []int{4}}, "durations": false})
+			tr.Emit(M{"e": "new", "flavour": "summary", "cb": "custom", "cbPanics": false, "cbObs": false, "via": "reporter-concurrent", "specs": M{"alpha": []int{2, 6}, "beta_total": []int{4}, "alpha_k": []int{2, 6}}, "durations": false})
 			objs := make([]interface{}, G)
 			var wg sync.WaitGroup
 			start := make(chan struct{})
